@@ -428,6 +428,48 @@ theorem computeAttrs_undo (ds : List AttrDecl) (a a' : Attrs) (name value v : St
       (by rw [lk_set]; simp [hd]) ds a' a h1 ha
     exact this
 
+/-- a canonically built attribute list has an entry for every declared attribute -/
+theorem computeAttrs_lk_isSome : ∀ (ds : List AttrDecl) (g a : Attrs), computeAttrs ds g = .ok a →
+    ∀ d ∈ ds, (lk a d.name).isSome = true
+  | [], _, _, _, d, hd => by simp at hd
+  | d0 :: ds, g, a, h, d, hd => by
+    rw [computeAttrs_cons_valOf] at h
+    cases h1 : computeAttrs ds g with
+    | error e => simp [h1] at h
+    | ok rest =>
+      simp only [h1] at h
+      cases hv : valOf d0 (lk g d0.name) with
+      | none => simp [hv] at h
+      | some v =>
+        simp only [hv, Except.ok.injEq] at h
+        subst h
+        rw [lk_cons]
+        by_cases he : d0.name = d.name
+        · simp [he]
+        · simp only [he, if_false]
+          rcases List.mem_cons.mp hd with rfl | hm
+          · exact absurd rfl he
+          · exact computeAttrs_lk_isSome ds g rest h1 d hm
+
+/-- setting an attribute the node does not carry (its type does not declare it) changes nothing, and
+    setting it again (to anything) gives the list back -/
+theorem computeAttrs_undo_none (ds : List AttrDecl) (a a' : Attrs) (name value w : String)
+    (ha : computeAttrs ds a = .ok a) (hv : lk a name = none)
+    (h1 : computeAttrs ds (a.filter (·.1 != name) ++ [(name, value)]) = .ok a') :
+    computeAttrs ds (a'.filter (·.1 != name) ++ [(name, w)]) = .ok a := by
+  have hnd : ∀ d ∈ ds, d.name ≠ name := by
+    intro d hd e
+    have := computeAttrs_lk_isSome ds a a ha d hd
+    rw [e, hv] at this
+    cases this
+  refine Eq.trans ?_ ha
+  apply computeAttrs_congr
+  intro d hd
+  rw [lk_set]
+  simp only [hnd d hd, if_false]
+  exact computeAttrs_lk (a.filter (·.1 != name) ++ [(name, value)]) a d.name
+    (by rw [lk_set]; simp [hnd d hd]) ds a' a h1 ha
+
 /-! ### mark sets: remove / re-add -/
 
 theorem filter_ne_of_not_mem (m : Mark) (l : Marks) (h : m ∉ l) : l.filter (· != m) = l :=
